@@ -65,6 +65,9 @@ def behaviours(ctx, tier):
     B["exec_ok"] = [("send", vmd.frame(M["LOAD_EXEC"], ok)), ("recv_all",)]
     B["exec_err"] = [("send", vmd.frame(M["LOAD_EXEC"], err)), ("recv_all",)]
     B["exec_long"] = [("send", vmd.frame(M["LOAD_EXEC"], lng)), ("recv_all",)]
+    # a session whose program really calls C code: the daemon starts (and afterwards reaps) a co-process for it,
+    # so the sessions that follow it meet whatever process-wide state that start / teardown left behind
+    B["exec_ffi"] = [("send", vmd.frame(M["LOAD_EXEC"], ctx.mods["s_extern"])), ("recv_all",)]
     B["ping"] = [("send", vmd.frame(M["PING"])), ("recv_all",)]
     B["status"] = [("send", vmd.frame(M["STATUS"])), ("recv_all",)]
     B["connect_close"] = [("close",)]
@@ -194,7 +197,7 @@ def run(tier):
     d = fresh("ref")
     solo = {}
     try:
-        for n in ("s_silent", "s_glob_a", "s_glob_b", "s_long", "s_err_oob"):
+        for n in ("s_silent", "s_glob_a", "s_glob_b", "s_long", "s_err_oob", "s_extern"):
             o, e, c, wf, closed = vmd.transact(d, vmd.frame(M["LOAD_EXEC"], ctx.mods[n]))
             solo[n] = (o, e, c)
             rc, so, se = c17.client_run(plain, mods[n])
@@ -203,6 +206,7 @@ def run(tier):
     finally:
         d.stop()
     prober = Prober(ctx, solo)
+    WELL = {"exec_ok": "s_glob_a", "exec_err": "s_err_oob", "exec_long": "s_long", "exec_ffi": "s_extern"}
 
     # ------------------------------------------------------------------ (A) sequences on one live daemon
     L = 2 if tier == "quick" else 3
@@ -226,6 +230,9 @@ def run(tier):
                 ntrans += 1
                 o, e, c, wf = vmd.decode_frames(r["data"].hex()) if r["data"] else (b"", [], None, True)
                 outcomes.add((b if not b.startswith("hostile") else "hostile", "error-frame" if e else "", "exit" if c is not None else "", "closed" if r["closed"] else ""))
+                if b in WELL and (o, e, c) != solo[WELL[b]]:
+                    rep.violation("seq-wellformed:" + b, {"sequence.txt": "\n".join(sq) + "\n", "daemon_stderr.txt": d.stderr_text()[-10000:]},
+                                  "the well-formed session '%s' inside the sequence %s got stdout=%r.. errors=%r exit=%s instead of its standalone result" % (b, " -> ".join(sq), (o or b"")[:60], e, c))
             nseq += 1
             bad = prober.probe(d)
             ntrans += 4
